@@ -998,8 +998,187 @@ fn build_exec(spec: &Spec, stub: &str, key: &str) -> Exec {
     e
 }
 
-fn run_exec(_spec: &Spec, _stub: &str) {
-    unimplemented!("exec scenarios are added with C12/C16")
+fn mark(text: &str) {
+    let mut b = Buf::new();
+    b.s("mark ");
+    b.s(text);
+    b.byte(b'\n');
+    b.flush_partial();
+}
+
+fn apply_builder_op(e: Exec, op: &str, idx: usize, wd: &str) -> Exec {
+    let (name, arg) = op.split_once(' ').unwrap_or((op, ""));
+    let os = |h: &str| OsString::from_vec(hexdec(h));
+    let file = |input: bool| -> File {
+        let p = format!("{}/f{}.txt", wd, idx);
+        if input {
+            std::fs::write(&p, b"file-input\n").unwrap();
+            File::open(&p).unwrap()
+        } else {
+            File::create(&p).unwrap()
+        }
+    };
+    match name {
+        "arg" => e.arg(os(arg)),
+        "args" => {
+            let v: Vec<OsString> = if arg == "none" { vec![] } else { arg.split(',').map(os).collect() };
+            e.args(&v)
+        }
+        "env" => {
+            let (k, v) = arg.split_once(' ').unwrap();
+            e.env(os(k), os(v))
+        }
+        "env_extend" => {
+            let v: Vec<(OsString, OsString)> = if arg == "none" {
+                vec![]
+            } else {
+                arg.split(',')
+                    .map(|kv| {
+                        let (k, v) = kv.split_once('=').unwrap();
+                        (os(k), os(v))
+                    })
+                    .collect()
+            };
+            e.env_extend(&v)
+        }
+        "env_remove" => e.env_remove(os(arg)),
+        "env_clear" => e.env_clear(),
+        "cwd" => e.cwd(std::path::PathBuf::from(os(arg))),
+        "detached" => e.detached(),
+        "stdin" => match arg {
+            "pipe" => e.stdin(Redirection::Pipe),
+            "none" => e.stdin(Redirection::None),
+            "merge" => e.stdin(Redirection::Merge),
+            "null" => e.stdin(subprocess::NullFile),
+            "file" => e.stdin(file(true)),
+            d if d.starts_with("data:") => e.stdin(hexdec(&d[5..])),
+            _ => panic!("bad stdin op"),
+        },
+        "stdout" | "stderr" => {
+            let set = |e: Exec, r: Redirection| if name == "stdout" { e.stdout(r) } else { e.stderr(r) };
+            match arg {
+                "pipe" => set(e, Redirection::Pipe),
+                "none" => set(e, Redirection::None),
+                "merge" => set(e, Redirection::Merge),
+                "null" => {
+                    if name == "stdout" {
+                        e.stdout(subprocess::NullFile)
+                    } else {
+                        e.stderr(subprocess::NullFile)
+                    }
+                }
+                "file" => set(e, Redirection::File(file(false))),
+                _ => panic!("bad output op"),
+            }
+        }
+        _ => panic!("unknown builder op {}", name),
+    }
+}
+
+fn run_terminator(e: Exec, term: &str, tag: &str) {
+    let show = |r: Result<String, PopenError>| match r {
+        Ok(d) => println!("{} ok {}", tag, d),
+        Err(e) => println!("{} err {}", tag, show_err(&e)),
+    };
+    match term {
+        "popen" => show(e.popen().map(|mut p| {
+            let d = format!(
+                "stdin={} stdout={} stderr={} detached={} pid={}",
+                p.stdin.is_some() as u8,
+                p.stdout.is_some() as u8,
+                p.stderr.is_some() as u8,
+                format!("{:?}", p).contains("detached: true") as u8,
+                p.pid().unwrap_or(0)
+            );
+            drop(p.stdin.take());
+            let st = p.wait();
+            format!("{} wait={}", d, st.map(show_status).unwrap_or("err".into()))
+        })),
+        "join" => show(e.join().map(show_status)),
+        "stream_stdout" | "stream_stderr" => {
+            let r = if term == "stream_stdout" {
+                e.stream_stdout().map(|mut r| {
+                    let mut v = vec![];
+                    r.read_to_end(&mut v).ok();
+                    v
+                })
+            } else {
+                e.stream_stderr().map(|mut r| {
+                    let mut v = vec![];
+                    r.read_to_end(&mut v).ok();
+                    v
+                })
+            };
+            show(r.map(|v| format!("read={}", hexenc(&v))));
+        }
+        "stream_stdin" => show(e.stream_stdin().map(|mut w| {
+            w.write_all(b"streamed-in").ok();
+            drop(w);
+            "written".to_string()
+        })),
+        "communicate" => show(e.communicate().map(|mut c| match c.read() {
+            Ok((o, e)) => format!(
+                "out={} err={}",
+                o.map(|v| hexenc(&v)).unwrap_or("none".into()),
+                e.map(|v| hexenc(&v)).unwrap_or("none".into())
+            ),
+            Err(e) => format!("readerr={:?}", e.kind()),
+        })),
+        "capture" => show(e.capture().map(|c| format!("out={} err={} status={}", hexenc(&c.stdout), hexenc(&c.stderr), show_status(c.exit_status)))),
+        _ => panic!("unknown terminator"),
+    }
+}
+
+/// Builder scenarios (C16): a constructor, a sequence of builder calls on up to two handles (clone / swap),
+/// then one terminator per handle.  A panic in a builder call or terminator is an outcome, not a failure.
+fn run_exec(spec: &Spec, stub: &str) {
+    let wd = std::env::var("STUB_DIR").unwrap();
+    let start = spec.get("start").unwrap().to_string();
+    let ops: Vec<String> = spec.all("op").iter().map(|s| s.to_string()).collect();
+    let at = std::cell::Cell::new(0usize);
+    std::panic::set_hook(Box::new(|_| {}));
+    let built = std::panic::catch_unwind(std::panic::AssertUnwindSafe(|| {
+        let mut cur = match start.split_once(' ').unwrap() {
+            ("cmd", "STUB") => Exec::cmd(stub),
+            ("cmd", h) => Exec::cmd(OsString::from_vec(hexdec(h))),
+            ("shell", h) => Exec::shell(OsString::from_vec(hexdec(h))),
+            _ => panic!("bad start"),
+        };
+        let mut other: Option<Exec> = None;
+        for (i, op) in ops.iter().enumerate() {
+            at.set(i);
+            match op.as_str() {
+                "clone" => other = Some(cur.clone()),
+                "swap" => {
+                    if let Some(o) = other.take() {
+                        other = Some(cur);
+                        cur = o;
+                    }
+                }
+                _ => cur = apply_builder_op(cur, op, i, &wd),
+            }
+        }
+        (cur, other)
+    }));
+    let (cur, other) = match built {
+        Ok(x) => x,
+        Err(_) => {
+            println!("panic_at {}", at.get());
+            return;
+        }
+    };
+    LOGGING.store(true, Ordering::SeqCst);
+    for (tag, e, key) in [("term1", Some(cur), "term"), ("term2", other, "term2")] {
+        if let Some(e) = e {
+            mark(tag);
+            let term = spec.get(key).unwrap_or("popen").to_string();
+            let r = std::panic::catch_unwind(std::panic::AssertUnwindSafe(|| run_terminator(e, &term, tag)));
+            if r.is_err() {
+                println!("{} panic", tag);
+            }
+        }
+    }
+    LOGGING.store(false, Ordering::SeqCst);
 }
 
 fn run_pipeline(_spec: &Spec, _stub: &str) {
